@@ -78,6 +78,10 @@ func (x *Exec) inlinable(f *ssa.Function, depth int) bool {
 	if len(f.Blocks) == 0 || depth >= 3 || f == x.fx.fn {
 		return false
 	}
+	// only functions of the repository itself are inlined; library code needs an extern contract
+	if n := funcFullName(f); !strings.HasPrefix(n, "rare/") && !strings.HasPrefix(n, "rare.") {
+		return false
+	}
 	n := 0
 	for _, b := range f.Blocks {
 		n += len(b.Instrs)
